@@ -328,19 +328,6 @@ def dives(patch: Any, body: Any, need_instruction: bool) -> list[list[str]]:
     return out
 
 
-def drop_empty_over_scalars(patch: Any, body: Any) -> Any:
-    """The patch without its instruction-free mapping nodes that lie over non-mapping values of the body."""
-    if not isinstance(patch, dict):
-        return patch
-    out = {}
-    for k, v in patch.items():
-        b = body.get(k, MISSING) if isinstance(body, dict) else MISSING
-        if instruction_free(v) and b is not MISSING and not isinstance(b, dict):
-            continue
-        out[k] = drop_empty_over_scalars(v, b if b is not MISSING else {}) if isinstance(v, dict) else v
-    return out
-
-
 def _instructions(p: Any) -> Any:
     if not isinstance(p, dict):
         yield p
@@ -540,30 +527,6 @@ def _case_patch_object(f: dict) -> tuple[Any, Any] | None:
     return None
 
 
-def match_f4(f: dict) -> bool:
-    """TypeError out of as_json_patch, and the merge content does dive (with something to set/delete below)
-    through a non-mapping value of the reviewed object."""
-    if f['sig'] != 'patch-raised:type':
-        return False
-    po = _case_patch_object(f)
-    return bool(po) and bool(dives(po[0], po[1], need_instruction=True))
-
-
-def match_f18c(f: dict) -> bool:
-    """Fidelity differs only because an instruction-free mapping of the patch lies over a non-mapping value."""
-    if f['sig'] != 'fidelity':
-        return False
-    po = _case_patch_object(f)
-    if not po:
-        return False
-    patch, obj = po
-    if dives(patch, obj, need_instruction=True) or not dives(patch, obj, need_instruction=False):
-        return False
-    reduced = drop_empty_over_scalars(patch, obj)
-    want = apply_fns(canon.merge7386(obj, reduced), f['case'].get('fns', []))
-    return strict_eq(prune(want), f['observed'])
-
-
 def match_f18d(f: dict) -> bool:
     """from_diff law violated; reproducible by calling the library directly on (object, mutated object); kopf's mutated
     object itself is the requested one; and the difference involves a list (an operation addresses a list index)."""
@@ -572,10 +535,9 @@ def match_f18d(f: dict) -> bool:
     K.load()
     c = f['case']
     obj, dst, ops = c['object'], c['dst'], c['ops']
-    if not dives(c['patch'], obj, need_instruction=False):
-        want = apply_fns(canon.merge7386(obj, c['patch']), c.get('fns', []))
-        if not strict_eq(prune(dst), prune(want)):
-            return False
+    want = apply_fns(canon.merge7386(obj, c['patch']), c.get('fns', []))
+    if not strict_eq(prune(dst), prune(want)):
+        return False
     again = K.jsonpatch.JsonPatch.from_diff(copy.deepcopy(obj), copy.deepcopy(dst)).patch
     ok, val = own_apply(obj, again)
     if ok and strict_eq(val, dst):
@@ -886,9 +848,9 @@ def corpus_scenarios() -> list[tuple[str, dict]]:
         return {'id': f'fn{i}', 'fn': i, 'kind': kind, 'operations': None, 'subresource': None, 'when': None, **kw}
 
     out = [
-        ('F4-list-delete', {**base, 'object': {'spec': {'a': [1, 2]}},
+        ('regress-F4-list-delete', {**base, 'object': {'spec': {'a': [1, 2]}},
                             'functions': [fnspec(patch=[['view', 'spec', 'a', {'b': None}]])], 'handlers': [hnd(0, 'mutate')]}),
-        ('F4-null', {**base, 'object': {'spec': None},
+        ('regress-F4-null', {**base, 'object': {'spec': None},
                      'functions': [fnspec(patch=[['view', 'spec', 'x', 1]])], 'handlers': [hnd(0, 'mutate')]}),
         ('special-keys', {**base, 'object': {'spec': {'p/q': 1, 't~l': {'~0': 1, '~1': 2}, '': 0, 'ü ñ': 'x'}},
                           'functions': [fnspec(patch=[['item', 'spec', {'p/q': None, 't~l': {'~0': 2, '/': 3}, '': 'e', 'a/b/c~d~0': [1]}]])],
@@ -997,10 +959,31 @@ def scenario_cases(ctx: fw.Ctx, sc: dict, D: dict[str, list[fw.Case]], tag: str 
     D['response'].append(fw.Case(term, {**data, 'response': obs['response'], 'raised': obs['raised']}, diag=diag))
 
 
+def dive_cases() -> list[tuple[str, dict, dict]]:
+    """Systematic non-mapping-under-mapping cases (the repaired F4/F18c): a str/int/bool/list/null at depth 1..3 of the
+    object, a mapping of the patch over it that is empty / deletes / sets / mixes."""
+    out = []
+    kinds = {'str': 'text', 'int': 5, 'bool': True, 'list': [1, {'x': 2}], 'null': None}
+    leaves = {'empty': {}, 'none': {'x': None}, 'set': {'x': 1}, 'mixed': {'x': None, 'y': {'z': 's'}, 'w': []}}
+    keys = ['spec', 'a', 'b/~']
+    for d in (1, 2, 3):
+        for kn, kv in kinds.items():
+            for ln, lv in leaves.items():
+                body: Any = copy.deepcopy(kv)
+                patch: Any = copy.deepcopy(lv)
+                for k in reversed(keys[:d]):
+                    body = {k: body, 'keep': 1}
+                    patch = {k: patch}
+                out.append((f'dive-{d}-{kn}-{ln}', body, patch))
+    return out
+
+
 def direct_patch_cases(ctx: fw.Ctx, G: Gen18, n: int, D: dict[str, list[fw.Case]]) -> None:
     """Patch._apply_patch and Patch.as_json_patch called directly on (body, patch content, fns)."""
     K.load()
     r = ctx.rng
+    for name, body, patch in dive_cases():
+        direct_case(ctx, D, body, patch, [])
     for i in range(n):
         body = G.body()
         if r.random() < 0.3:
@@ -1009,11 +992,16 @@ def direct_patch_cases(ctx: fw.Ctx, G: Gen18, n: int, D: dict[str, list[fw.Case]
                 body = {'spec': body}
         patch = G.patch_for(body, 3, 0.05, top=r.random() < 0.5) if r.random() < 0.93 else {}
         fnops = G.fnops(body, patch) if r.random() < 0.3 else []
+        direct_case(ctx, D, body, patch, fnops)
+
+
+def direct_case(ctx: fw.Ctx, D: dict[str, list[fw.Case]], body: dict, patch: dict, fnops: list) -> None:
+    if True:
         data = {'kind': 'patch', 'object': body, 'patch': patch, 'fns': fnops}
         try:
             body_t, patch_t, fns_t = canon.cj(body), canon.cj(patch), c_fns(fnops)
         except cq.Unencodable:
-            continue
+            return
         # _apply_patch
         p = K.patches.Patch(copy.deepcopy(patch))
         b2 = copy.deepcopy(body)
@@ -1023,13 +1011,10 @@ def direct_patch_cases(ctx: fw.Ctx, G: Gen18, n: int, D: dict[str, list[fw.Case]
                                   diag=f'apply_dsl {patch_t} {body_t}'))
         ctx.count('apply_dsl', kind)
         dv = dives(patch, body, need_instruction=False)
-        ctx.count('guard', 'paths_ok' if not dv else 'dive')
-        D['guard'].append(fw.Case(f'Bool.eqb (paths_okb {patch_t} {body_t}) {cq.cbool(not dv)}', {**data, 'dives': dv},
-                                  diag=f'paths_okb {patch_t} {body_t}'))
-        if not dv:
-            # under the guard: Ok and equal to RFC 7386 up to empty mappings — evaluated in Coq on the model as well
-            D['guard'].append(fw.Case(f'match apply_dsl {patch_t} {body_t} with Ok b => jeqb (prune b) (prune (merge {body_t} {patch_t})) | _ => false end',
-                                      {**data, 'note': 'model: prune(apply_dsl) = prune(merge)'}))
+        ctx.count('mapping_over_non_mapping', 'none' if not dv else f'depth {min(3, min(len(x) for x in dv))}')
+        # the model itself: Ok and equal to RFC 7386 up to empty mappings, evaluated in Coq on every case
+        D['merge'].append(fw.Case(f'match apply_dsl {patch_t} {body_t} with Ok b => jeqb (prune b) (prune (merge {body_t} {patch_t})) | _ => false end',
+                                  {**data, 'note': 'model: prune(apply_dsl) = prune(merge)'}, diag=f'apply_dsl {patch_t} {body_t}'))
         # as_json_patch
         p = K.patches.Patch(copy.deepcopy(patch), body=K.bodies.Body(copy.deepcopy(body)), fns=[make_fn(o) for o in fnops])
         K.diff_calls.clear()
@@ -1040,17 +1025,17 @@ def direct_patch_cases(ctx: fw.Ctx, G: Gen18, n: int, D: dict[str, list[fw.Case]
         monitor_patch(ctx, data, body, patch, fnops, obs)
         if kind != 'ok':
             D['asjp'].append(fw.Case(f'res_eqb jeqb (body_to_be {patch_t} {fns_t} {body_t}) {canon.cres(kind)}', {**data, 'outcome': kind}))
-            continue
+            return
         if ops and (patch or fnops):
             ctx.nontriv([body, patch, fnops])
         if not K.diff_calls:
             D['asjp'].append(fw.Case(f'patch_is_empty {patch_t} && is_nil {fns_t}', {**data, 'note': 'from_diff not called'}))
-            continue
+            return
         src, dst = K.diff_calls[-1]
         try:
             dst_t, ops_t = canon.cj(dst), c_ops(ops)
         except cq.Unencodable:
-            continue
+            return
         D['asjp'].append(fw.Case(
             f'res_eqb (list_eqb (fun _ _ => true)) (as_json_patch (fun _ _ => {ops_t}) {patch_t} {fns_t} {body_t}) (Ok {ops_t}) && '
             f'res_eqb jeqb (body_to_be {patch_t} {fns_t} {body_t}) (Ok {dst_t})',
@@ -1156,7 +1141,7 @@ def pointer_cases(ctx: fw.Ctx, G: Gen18, n: int, D: dict[str, list[fw.Case]]) ->
 
 
 def run(ctx: fw.Ctx) -> int:
-    ctx.matchers = {'F4': match_f4, 'F18a': match_f18a, 'F18b': match_f18b, 'F18c': match_f18c, 'F18d': match_f18d}
+    ctx.matchers = {'F18a': match_f18a, 'F18b': match_f18b, 'F18d': match_f18d}   # F4, F18c: fixed by 1b39531, nothing is suppressed
     ctx.proofs()
     ok, logtxt = fw.build_models(['Model/JsonPatch.v', 'Model/MergeDsl.v', 'Model/Admission.v'])
     if not ok:
@@ -1164,11 +1149,16 @@ def run(ctx: fw.Ctx) -> int:
         return ctx.finish(RULE)
     K.load()
     G = Gen18(ctx)
-    D: dict[str, list[fw.Case]] = {k: [] for k in ('select', 'response', 'dsl', 'law', 'apply', 'guard', 'asjp', 'build', 'seltable', 'pointer')}
+    D: dict[str, list[fw.Case]] = {k: [] for k in ('select', 'response', 'dsl', 'law', 'apply', 'merge', 'asjp', 'build', 'seltable', 'pointer')}
 
     for name, sc in corpus_scenarios():
         ctx.count('corpus', name)
         scenario_cases(ctx, sc, D)
+    for name, body, patch in dive_cases():
+        ctx.count('corpus', 'dive-*')
+        scenario_cases(ctx, {'op': 'CREATE', 'sub': None, 'webhook': None, 'reason': None, 'old': None, 'dryrun': False, 'uid': 'uid-1',
+                             'object': body, 'functions': [{'warnings': [], 'patch': [['item', k, v] for k, v in patch.items()], 'fns': [], 'raise': None}],
+                             'handlers': [{'id': 'fn0', 'fn': 0, 'kind': 'mutate', 'operations': None, 'subresource': None, 'when': None}]}, D)
     for i in range(ctx.scale(300, 4000)):
         scenario_cases(ctx, G.scenario(), D)
     direct_patch_cases(ctx, G, ctx.scale(350, 6000), D)
